@@ -514,8 +514,17 @@ func runC05(r *Run) {
 					if strings.Contains(cn, "bytebufferpool.ByteBuffer).Bytes") && len(x.Call.Args) > 0 {
 						return fromBuf(x.Call.Args[0])
 					}
-					if strings.HasSuffix(cn, "utils.UnsafeBytes") || strings.HasSuffix(cn, "utils.UnsafeString") {
-						return len(x.Call.Args) > 0 && fromBuf(x.Call.Args[0])
+					if strings.HasSuffix(cn, "utils.UnsafeBytes") || strings.HasSuffix(cn, "utils.UnsafeString") || strings.HasSuffix(cn, "App.getString") || strings.HasSuffix(cn, "App.getBytes") {
+						// (*App).getString / getBytes copy only under Immutable
+						return len(x.Call.Args) > 0 && fromBuf(x.Call.Args[len(x.Call.Args)-1])
+					}
+					// the append convention: func AppendX(dst []byte, …) []byte extends and returns dst
+					if g := x.Call.StaticCallee(); g != nil && !x.Call.IsInvoke() && strings.HasPrefix(g.Name(), "Append") && len(x.Call.Args) > 0 {
+						if _, isSlice := x.Call.Args[0].Type().Underlying().(*types.Slice); isSlice {
+							if _, retSlice := x.Type().Underlying().(*types.Slice); retSlice {
+								return fromBuf(x.Call.Args[0])
+							}
+						}
 					}
 				}
 				return false
@@ -540,6 +549,22 @@ func runC05(r *Run) {
 						if fromBuf(a) {
 							found = true
 							r.bad(short(f.String())+":pooled-buffer-not-retained", r.pos(c), "the bytes of a buffer this function returns to bytebufferpool are handed to "+short(cn)+", which keeps the slice: the body is a view of a recycled buffer — whoever takes the buffer next (logger, handler, another request) overwrites the reply before it is written")
+						}
+					}
+				}
+			}
+			// … and no view of it leaves through a return value: the caller reads it after the Put
+			for _, b := range f.Blocks {
+				for _, in := range b.Instrs {
+					ret, ok := in.(*ssa.Return)
+					if !ok {
+						continue
+					}
+					for _, res := range ret.Results {
+						seen = map[ssa.Value]bool{}
+						if fromBuf(res) {
+							found = true
+							r.bad(short(f.String())+":pooled-buffer-not-returned", r.pos(ret), "the function returns a view of a buffer it has handed back to bytebufferpool (without Immutable, (*App).getString converts without copying): whoever takes the buffer next writes into the memory the caller is still reading — bytes of another request end up in this one's reply")
 						}
 					}
 				}
